@@ -59,7 +59,8 @@ type protoStats struct {
 	nestedCreate, earlyLookup, failureThenLookup, creations, failures, earlyRefs int
 }
 
-func checkProtocol(ev []mon.TraceEv) (violations []string, st protoStats) {
+func checkProtocol(ev []mon.TraceEv, drivenClient ...bool) (violations []string, st protoStats) {
+	driven := len(drivenClient) > 0 && drivenClient[0]
 	names := map[string]*nameState{}
 	get := func(n string) *nameState {
 		s := names[n]
@@ -186,6 +187,11 @@ func checkProtocol(ev []mon.TraceEv) (violations []string, st protoStats) {
 				}
 			}
 		case "remove":
+			if e.Phase == "call" && s.state == "published" && s.depth == 0 && !driven {
+				// the container removes singletons on the failure path of their own creation only: a name whose
+				// creation completed stays what it is - destroying it makes the next lookup create a second one
+				bad(e, "a published singleton (m%d) is removed from the registry: the next lookup would create the component a second time", s.published)
+			}
 			if e.Phase == "ret" && s.depth == 0 {
 				*s = nameState{}
 			}
@@ -375,7 +381,7 @@ func (p c04) driven(c *core.Ctx) {
 }
 
 func (p c04) judge(c *core.Ctx, ev []mon.TraceEv, source string, detail map[string]any) {
-	vs, st := checkProtocol(ev)
+	vs, st := checkProtocol(ev, source == "driven")
 	c.Count("histories_"+source, 1)
 	c.Count("registry_events", len(ev))
 	c.Count("creations", st.creations)
@@ -513,10 +519,40 @@ func (p c04) traced(c *core.Ctx) {
 			}
 		}
 	}
+	// a smart post-processor whose early-reference callback fails for one component, answering (nil, err):
+	// the creation that asked for the early reference fails - the raw component is not handed out instead
+	earlyFault := ""
+	if plan == nil && c.Rng.Intn(5) == 0 {
+		earlyFault = sc.Nodes[c.Rng.Intn(len(sc.Nodes))].DisplayName()
+		fp := world.NewPP(c.Rng.Intn(4), "early-guard", c.Rng.Intn(5)-2)
+		world.PPCoreOf(fp).FailOn["early:"+earlyFault] = true
+		world.PPCoreOf(fp).NilOnFail = c.Rng.Intn(2) == 0
+		extra = append(extra, fp)
+	}
 	r := world.Start(sc, world.Options{Extra: extra})
 	if abnormal(r.Outcome()) {
 		c.Count("abnormal_starts_skipped", 1)
 		return
+	}
+	if earlyFault != "" {
+		hits, depth := 0, 0
+		for _, e := range r.Log.Events() {
+			switch {
+			case e.Kind == "lookup":
+				depth++
+			case e.Kind == "lookup-end" && depth > 0:
+				depth--
+			case e.Kind == "pp-early" && e.Who == earlyFault && e.By == "early-guard" && depth == 0:
+				hits++ // (inside a lookup issued by user code the error goes to that code, which may swallow it)
+			}
+		}
+		if hits > 0 {
+			c.Count("failing_early_reference_callbacks_reached", 1)
+			if r.Outcome() == "ok" && !world.Palette[sc.Nodes[mustIndex(sc, earlyFault)].Type].Lazy {
+				c.Fail("", fmt.Sprintf("the early-reference callback of a post-processor reported an error for %q, yet the start succeeded (the early reference handed out instead is that of a creation that should have failed)", earlyFault), failDetail(sc, r, nil))
+				return
+			}
+		}
 	}
 	r.Tracer.ResetBudget(200000)
 	lookupErr := map[string]bool{}
@@ -628,4 +664,12 @@ func earlyRefOfFailedAttemptEscaped(ev []mon.TraceEv, runFailed ...bool) bool {
 		}
 	}
 	return false
+}
+
+func mustIndex(sc *world.Scenario, name string) int {
+	i, _ := nodeNamed(sc, name)
+	if i < 0 {
+		return 0
+	}
+	return i
 }
